@@ -69,3 +69,39 @@ Theorem C03_tx_eq_plain `{Sig} : forall E n c w p d cnt, dom_ok E n -> wf2 n w -
   exists l, orbit2 n w p d = Some l /\ run E (orbit2_tx n p d) c w cnt = (Done l, w, cnt).
 Proof. exact orbit2_tx_eq_plain. Qed.
 Print Assumptions C03_tx_eq_plain.
+
+(** ** 3-maps.  Proved on every store whose images are in range and whose null dart is inert ([rng3], implied
+    by well-formedness): the orbit worklist and the vertex / edge / volume identifier worklists. The face
+    identifier (two-sided lock-step walk) and the claim that the vertex / face closures are closed under
+    inverses on mirrored maps are decided per observation by Extract/Query3Oracle.v, not proved. *)
+From HC Require Import Map3.Ops3 Map3.Wf3 Map3.Orbit3Proofs.
+
+Theorem C03_orbit3 `{Sig} : forall n s p d, rng3 n s -> policy3_ok p = true -> d <> 0 -> d < n ->
+  exists l, orbit3 n s p d = Some l /\ hd_error l = Some d /\ NoDup l /\ ~ In 0 l /\
+            forall e, In e l <-> reach (succ3 s p) d e.
+Proof. exact orbit3_spec. Qed.
+Print Assumptions C03_orbit3.
+
+Theorem C03_wf3_in_range `{Sig} : forall n s, wf3 n s -> rng3 n s.
+Proof. exact wf3_rng3. Qed.
+Print Assumptions C03_wf3_in_range.
+
+(** the identifiers are the smallest darts of the orbits; the identifier functions terminate without panic
+    on every in-range store *)
+Theorem C03_vertex_id3 `{Sig} : forall E n c w d cnt l, dom3_ok E n -> rng3 n w -> d <> 0 -> d < n ->
+  orbit3 n w QVertex d = Some l ->
+  exists r, run E (vertex_id3 n d) c w cnt = (Done r, w, cnt) /\ minof r l.
+Proof. exact vertex_id3_orbit_min. Qed.
+Print Assumptions C03_vertex_id3.
+
+Theorem C03_edge_id3 `{Sig} : forall E n c w d cnt l, dom3_ok E n -> rng3 n w -> d <> 0 -> d < n ->
+  orbit3 n w QEdge d = Some l ->
+  exists r, run E (edge_id3 n d) c w cnt = (Done r, w, cnt) /\ minof r l.
+Proof. exact edge_id3_orbit_min. Qed.
+Print Assumptions C03_edge_id3.
+
+Theorem C03_volume_id3 `{Sig} : forall E n c w d cnt l, dom3_ok E n -> rng3 n w -> d <> 0 -> d < n ->
+  orbit3 n w QVolume d = Some l ->
+  exists r, run E (volume_id3 n d) c w cnt = (Done r, w, cnt) /\ minof r l.
+Proof. exact volume_id3_orbit_min. Qed.
+Print Assumptions C03_volume_id3.
